@@ -63,8 +63,9 @@
 (*                                                                         *)
 (* Not modelled: file-size metadata lost with the data (a lost sector      *)
 (* beyond the preallocated size reads as zero, the file is not shortened); *)
-(* Open at a snapshot other than {0,0} (file selection by name) - both are *)
-(* exercised on real files only (walsim); sector sizes other than 512.     *)
+(* Open at a snapshot other than {0,0} (file selection by name) - the      *)
+(* latter is modelled at record granularity in Recover.tla (segs, enti,    *)
+(* SegFor); sector sizes other than 512.                                   *)
 (***************************************************************************)
 EXTENDS Integers, Sequences, FiniteSets, TLC
 
